@@ -43,6 +43,7 @@ class Interp:
         self._capture = None
         self.capture_locals = {}     # qname -> [local names] recorded at each return of that function
         self.captured = {}
+        self.last_exit = None
         self.own_params = True   # D8: array arguments of the entry call are caller-owned storage
         ALL_INTERPS.append(self)
 
@@ -195,9 +196,28 @@ class Interp:
         save_pc = self.pc
         try:
             inner = St(env, st.heap)
+            passed = {v_.mid: v_ for v_ in env.values() if isinstance(v_, Num) and v_.is_array and v_.mid is not None}
+            frame.exit_envs = []
             end = self.exec_block(fnode.body, inner, frame)
             if end is not None:
                 frame.rets.append((Const(None), end.heap))
+                frame.exit_envs.append(end.env)
+            # D8: arrays the callee overwrote in place (same storage as an argument, different contents at exit)
+            self.last_exit = None
+            if passed and frame.exit_envs:
+                out = {}
+                for m_, arg_ in passed.items():
+                    fin = None
+                    changed = False
+                    for ee in frame.exit_envs:
+                        cand = [v_ for v_ in ee.values() if isinstance(v_, Num) and v_.mid == m_ and v_.whole]
+                        c0 = cand[0] if cand else arg_
+                        changed = changed or (c0 is not arg_)
+                        fin = c0 if fin is None else join(fin, c0)
+                    if changed and isinstance(fin, Num):
+                        fin.mid, fin.whole = m_, True
+                        out[m_] = fin
+                self.last_exit = out or None
         finally:
             self.frames.pop()
             self.depth -= 1
@@ -273,6 +293,9 @@ class Interp:
             t = frozenset()
             for a in list(args) + list(kwargs.values()):
                 t |= taint_of(a)
+                if isinstance(a, Num) and a.view_of:
+                    # D8: an operation the analysis does not know receives caller-owned storage: its result may alias it
+                    self.events.append(('alias-lost', node, a.view_of, name, self.cur.qname if self.cur else ''))
             return TopV('prim ' + name, t)
         return h(self, name, args, kwargs, node, st)
 
